@@ -66,6 +66,11 @@ func (o *OperandPegImpl) Require66h() bool {
 				inherentSize = 64
 			}
 		case baseType == CodeM: // 明示的な DataType なしのメモリ
+			if sizedByOperand {
+				// アドレス指定に使うレジスタ幅はアドレスサイズ (67h) の問題であり、
+				// オペランドサイズは相手のレジスタ/サイズ指定が決める
+				break
+			}
 			// メモリアドレスで使用されるレジスタに基づいて推定し、モードサイズにデフォルト設定
 			// この部分は resolveMemorySize ロジックと重複するため注意が必要
 			// ここでは単純化のため、他の情報がなければモードサイズにデフォルト設定すると仮定
